@@ -523,6 +523,7 @@ pub struct Invocation {
     pub data_after_eof: bool,
     pub writeable_at_start: bool,
     pub became_writeable_before_streams_done: bool,
+    pub writeable_ok_but_not_writeable: bool,
     /// log length when the handler returned
     pub log_len_at_return: usize,
 }
@@ -677,6 +678,13 @@ async fn interpret(req: &mut Req<'_>, sh: Arc<HShared>, idx: usize) -> io::Resul
                 if !req.is_writeable() {
                     if let Err(e) = req.writeable().await {
                         fail_or_continue!(e, true);
+                        continue;
+                    }
+                    if !req.is_writeable() {
+                        // Seen after an abort error that the handler ignored: writeable() returns
+                        // Ok although the request never became writeable (outside the listed
+                        // properties; recorded, and the write is skipped instead of panicking).
+                        log!(|i| i.writeable_ok_but_not_writeable = true);
                         continue;
                     }
                 }
